@@ -82,6 +82,8 @@ def strategy(tier):
 
 
 def enumerate_cases(tier):
+    for case in slowlink_cases():
+        yield case
     for case in _controller_cases():
         yield case
     for active, ka, pka, idle in itertools.product((False, True), KEEPALIVES, KEEPALIVES, IDLES):
@@ -120,7 +122,93 @@ def pinned_cases():
                          'script': [['user-send', 1, 30000, 1], ['ack', 5, 10], ['ack', 5, 999], ['ack', 1, 2]], 'horizon': 0}
 
 
+def slowlink_cases():
+    for active, idle, rate, term_at in itertools.product((False, True), (3, 5), (300, 1000), (None, 2)):
+        yield {'kind': 'slowlink', 'active': active, 'idle': idle, 'rate': rate, 'size': rate * idle * 4, 'term_at': term_at}
+
+
+def execute_slowlink(case):
+    ''' A link that carries ``rate`` octets per (virtual) second: the endpoint's own bundle takes several idle times to
+    write.  While its octets are flowing there is traffic, so the idle timer must neither start a termination nor - if
+    the user asked for termination meanwhile - close the connection under the transfer. '''
+    from vlib import tcpcl_world as tw, ref9174 as r, strat9174 as s9, simloop
+    import dbus
+    out = Outcome()
+    active = bool(case['active'])
+    idle, rate, size = int(case['idle']), int(case['rate']), int(case['size'])
+    cfg = tw.make_config('dtn://real/', keepalive_time=0, idle_time=idle, segment_size_tx_initial=1000)
+    world = tw.World(cfg, scripted=True, real_is_passive=not active, cap_ab=rate if active else None, cap_ba=None if active else rate)
+    end = world.real
+    hdl = end.hdl
+    world.settle()
+    world.peer_send(r.encode({'t': 'CH', 'magic': r.MAGIC.hex(), 'version': 4, 'flags': 0}))
+    world.settle()
+    del world.rx_pipe.readable[:]
+    world.settle()
+    world.peer_send(r.encode({'t': 'SESS_INIT', 'keepalive': 0, 'segment_mru': 1000, 'transfer_mru': 2 ** 40, 'nodeid': 'dtn://peer/', 'ext': []}))
+    world.settle()
+    del world.rx_pipe.readable[:]
+    world.settle()
+    if hdl._state != 'established':
+        out.fail('not-established', 'handshake over the slow link ended in state %s' % hdl._state)
+        return out
+    data = s9.content(size, 7)
+    bid = end.call('send_bundle_data', dbus.ByteArray(data))
+    world.settle()
+    acked = 0
+    user_term_at = case.get('term_at')
+    written_prev = len(world.rx_pipe.log)
+    complete = False
+    for second in range(1, 12 * idle + size // rate + 5):
+        simloop.advance_to(simloop.CLOCK.now_ms + 1000)
+        del world.rx_pipe.readable[:rate]          # what the link carried in this second
+        world.settle()
+        msgs = r.parse_stream(bytes(world.rx_pipe.log))[0]
+        segs = [m for m in msgs if m['t'] == 'XFER_SEGMENT']
+        cum = 0
+        for idx, seg in enumerate(segs):
+            cum += len(seg['data']) // 2
+            # the peer acknowledges a segment once all of it has been carried (read) by the link
+            carried = len(world.rx_pipe.log) - len(world.rx_pipe.readable) - len(world.rx_pipe.inflight)
+            if idx >= acked and seg['end'] <= carried:
+                try:
+                    world.peer_send(r.encode({'t': 'XFER_ACK', 'flags': seg['flags'], 'id': seg['id'], 'length': cum}))
+                except OSError:
+                    pass
+                acked = idx + 1
+        world.settle()
+        if user_term_at is not None and second == user_term_at:
+            end.call('terminate', dbus.Byte(0))
+            world.settle()
+        fin = [e['args'][2] for e in end.signals('send_bundle_finished') if str(e['args'][0]) == str(bid)]
+        if fin:
+            complete = fin == ['success']
+            if not complete:
+                out.fail('slowlink-transfer-failed', 'the transfer over the slow link ended as %s after %d s (idle time %d s, %d octets/s)'
+                         % (fin, second, idle, rate))
+            break
+        flowing = len(world.rx_pipe.log) > written_prev or hdl.send_buffer_used() > 0 or hdl.send_pending() > 0
+        written_prev = len(world.rx_pipe.log)
+        if end.sock.closed:
+            out.fail('closed-while-own-octets-flow', 'the endpoint closed the connection after %d s with %d of %d bundle octets carried '
+                     '(idle time %d s, link %d octets/s, user terminate at %s)' % (second, cum, size, idle, rate, user_term_at))
+            break
+        if hdl._in_term and user_term_at is None and flowing:
+            out.fail('idle-termination-while-own-octets-flow', 'the endpoint started termination after %d s although its own octets '
+                     'were being written every second (idle time %d s, link %d octets/s)' % (second, idle, rate))
+            break
+    else:
+        out.fail('slowlink-never-completes', 'the transfer did not complete within the time the link needs for it')
+    for esc in world.escapes():
+        out.fail('escape:%s@%s' % (esc.exc_type, esc.frame), 'exception escaped an event-loop callback: %s: %s' % (esc.exc_type, esc.exc_msg[:120]))
+    out.nontrivial = True
+    out.label('slowlink', 'user-term' if user_term_at is not None else 'no-term')
+    return out
+
+
 def execute(case):
+    if case.get('kind') == 'slowlink':
+        return execute_slowlink(case)
     from vlib import tcpcl_world as tw, ref9174 as r, strat9174 as s9, simloop
     import dbus
     out = Outcome()
